@@ -37,6 +37,7 @@ func JobQueueMain(args []string) (interface{}, error) {
 	storeLag := fs.Bool("storelag", false, "store listener lags")
 	fifo := fs.Bool("fifo", false, "order-sensitive workload: one JobConfig at its limit, mostly Enqueue Jobs")
 	jobsFirst := fs.Bool("jobsfirst", false, "on restart the Job informer lists before the JobConfig informer")
+	statusLag := fs.Bool("statuslag", false, "jobconfigcontroller profile: late JobConfig deliveries, Jobs that finish unstarted or leave early (implies -jcsync)")
 	applied := fs.Bool("applied", false, "applied-but-error faults")
 	jcsync := fs.Bool("jcsync", false, "run jobconfigcontroller")
 	crashes := fs.Bool("crash", true, "allow crash/restart")
@@ -69,7 +70,7 @@ func JobQueueMain(args []string) (interface{}, error) {
 	switch *mode {
 	case "random":
 		for r := 0; r < *runs; r++ {
-			o := JQOpts{NJC: 1 + rng.Intn(2), StoreLag: *storeLag, JobsFirst: *jobsFirst, JCSync: *jcsync, MaxJobs: 2 + rng.Intn(*maxJobs-1)}
+			o := JQOpts{NJC: 1 + rng.Intn(2), StoreLag: *storeLag, JobsFirst: *jobsFirst, JCSync: *jcsync || *statusLag, StatusLag: *statusLag, MaxJobs: 2 + rng.Intn(*maxJobs-1)}
 			for c := 0; c < o.NJC; c++ {
 				o.MaxC = append(o.MaxC, 1+rng.Intn(2))
 			}
